@@ -150,6 +150,17 @@ pub fn cases(prop: &str, tier: Tier, seed: u64) -> Vec<CaseDesc> {
                 }
             }
         }
+        "C15" => {
+            for i in 0..(if q { 20_000u64 } else { 600_000 }) {
+                out.push(CaseDesc { spec: format!("tree:{}:{}", seed, i), scenario: "build".into() });
+            }
+        }
+        "C18" => {
+            out.extend(with_scenario(disk_corpus(false), "replace"));
+            for (p, nq, nt) in [("exec", 2500, 100_000), ("gcgraph", 500, 20_000), ("execmvp", 300, 10_000)] {
+                out.extend(with_scenario(g(p, nq, nt), "replace"));
+            }
+        }
         "C16" => {
             out.extend(with_scenario(disk_corpus(false), "visit"));
             for (p, nq, nt) in [("full", 2000, 80_000), ("mvp", 300, 10_000), ("gcgraph", 300, 10_000)] {
